@@ -1005,6 +1005,15 @@ def gen_C19(tier, seed):
               "%Y" * 16, "%Y" * 17, "%Y-" * 16, "%Y-%m" * 9, "%f?" * 16, "%J", "%Y %J"]:
         out.append(f"fmt_debug {enc(f)}")
     utc_pool = [parts_of(r.randint(days_from_civil(1, 1, 1), days_from_civil(9999, 12, 31)) * NPD + r.choice([0, 1, NPD - 1, r.randint(0, NPD - 1)])) for _ in range(200)]
+    # calendar boundary days (the 366th day of leap years in particular: formats with %j must read it back), first and last nanosecond
+    boundary = [parts_of(days_from_civil(y, mo, d) * NPD + tod) for y in (1904, 2000, 2016, 2020, 2024, 2023, 1900, 9996)
+                for (mo, d) in ((12, 31), (1, 1), (2, 28), (2, 29), (3, 1), (12, 30)) if not (mo == 2 and d == 29 and not is_leap(y))
+                for tod in (0, NPD - 1, 86398 * SEC + 123456789)]
+    for e in boundary:
+        for f in ["%Y-%m-%d %j %H:%M:%S.%f", "%j/%Y %m-%dT%H:%M:%S.%f", "%A, %d %B %Y (%j) %H:%M:%S.%f", "%Y-%m-%dT%H:%M:%S.%f", "%Y-%j"]:
+            out.append(f"rt_fmt {p2(e)} {enc(f)}")
+        out.append(f"rt_fmt_const {p2(e)} 7")
+    utc_pool = boundary[::5] + utc_pool
     for e in utc_pool[:40]:
         for k in range(9):
             out.append(f"rt_fmt_const {p2(e)} {k}")
